@@ -81,15 +81,21 @@ def make_scenarios(ctx, count):
         style, frames = history(rng, net, cfg["mtu"], rng.randint(20, 60))
         use_flow = rng.random() < 0.25
         failrc = rng.choice([-1, -1, 1, 3, 255, -9])       # what a failing getter returns: any non-zero value
+        mtu_change = None
+        if rng.random() < 0.12 and len(frames) > 4 and style != "overflow":
+            # the link's MTU changes while the interface lives on: every frame sent afterwards must fit the new one
+            mtu_change = (rng.randrange(1, len(frames)), rng.choice([576, 1500, 9000, rng.choice(G.MTUS_TINY), G.pick_mtu(rng)]))
         for tag, fill, lst in (("a", "165", a), ("b", "256 %d" % rng.randint(1, 10 ** 6), b)):
-            s = H.Scenario("%s%d" % (tag, i), meta=dict(frames=frames, cfg=cfg, style=style, pair=i, flow=use_flow))
+            s = H.Scenario("%s%d" % (tag, i), meta=dict(frames=frames, cfg=cfg, style=style, pair=i, flow=use_flow, mtu_change=mtu_change))
             s.add("FILL " + fill)
             s.add("OPT failrc=%d" % failrc)
             s.iface(0, **H.iface_kw(cfg)).glob(**G.global_kw(glob))
             grng = G.rng_for(ctx.seed, "C02gap", i) if i % 2 else None       # the same clock in both runs of the pair
             if grng is not None and grng.random() < 0.5:
                 s.add("NOW %d" % grng.choice(s.BASES_MS))
-            for fr in frames:
+            for k, fr in enumerate(frames):
+                if mtu_change is not None and k == mtu_change[0]:
+                    s.add("MTU 0 %d %d" % (mtu_change[1], cfg["rxseed"]))
                 if grng is not None and grng.random() < 0.2:
                     s.add("ADV %d" % grng.choice(s.GAPS_MS))
                     s.meta["clock_gaps"] = s.meta.get("clock_gaps", 0) + 1
@@ -108,6 +114,10 @@ def monitor(scn, sobj, rep, sf, ck):
     for idx, inp in enumerate(scn.inputs):
         if idx >= len(frames):
             break
+        if meta.get("mtu_change") is not None and idx == meta["mtu_change"][0]:
+            mtu = meta["mtu_change"][1]
+            rx = M.RxBuf(mtu, cfg["rxseed"])
+            rep.count("mtu_changed_mid_history")
         buf = rx.load(frames[idx])
         tos, op = buf[15], buf[17]
         sends = inp.sends()
@@ -217,4 +227,5 @@ def run(ctx):
     for op in ("Hello", "Probe", "Train", "ACK", "QueryResp", "QueryLargeTlvResp"):
         rep.need("sent:" + op, c.get("sent:" + op, 0), 100)
     rep.need("style:overflow (more observations than the responder keeps)", c.get("style:overflow", 0), 10)
+    rep.need("mtu_changed_mid_history", c.get("mtu_changed_mid_history", 0), 50)
     rep.need("clock_gaps_between_frames", rep.counters.get("clock_gaps_between_frames", 0), 200)
